@@ -441,6 +441,26 @@ fn cmd_gen(args: &[String]) {
                 }
                 Err(_) => vec![],
             };
+            // per column, in order: the annotation of its field in the two Python outputs
+            let ann_of = |text: &Result<String, String>, open: &str, close: &str| -> Vec<String> {
+                let Ok(text) = text else { return vec![] };
+                let ls: Vec<&str> = text.split('\n').collect();
+                let mut at = 0usize;
+                t.columns.iter().map(|c| {
+                    let prefix = format!("    {}: {}", c.name, open);
+                    for k in at..ls.len() {
+                        if let Some(rest) = ls[k].strip_prefix(&prefix) {
+                            if let Some(e) = rest.find(close) {
+                                at = k + 1;
+                                return rest[..e].to_string();
+                            }
+                        }
+                    }
+                    "<missing>".to_string()
+                }).collect()
+            };
+            let sm_ann = ann_of(&sm, "", " = Field(");
+            let sa_ann = ann_of(&sa, "Mapped[", "] = mapped_column(");
             // SeaORM under the case's configuration: repeated renders, byte comparison, configuration lines to K-exp
             let cfg = &cfgs[i];
             let mut cfg_variants: Vec<Vec<String>> = vec![];
@@ -467,7 +487,7 @@ fn cmd_gen(args: &[String]) {
             }
             let cfg_obs = json!({"rep": cfg_rep, "perm": true, "hash": cfg_first.as_ref().map(|x| format!("{:016x}", fnv(x))).unwrap_or_else(|e| e.clone()),
                 "variants": if cfg_rep { Value::Null } else { json!(cfg_variants) }});
-            xts.push(format!("(mkXT {} {} {} {} {} {} {})", sea_g, sa_variants.gs(), sm_variants.gs(), sa_class.gs(), invalid.gs(), sm_text.gs(), cfg_variants.gs()));
+            xts.push(format!("(mkXT {} {} {} {} {} {} {} {} {})", sea_g, sa_variants.gs(), sm_variants.gs(), sa_class.gs(), invalid.gs(), sm_text.gs(), cfg_variants.gs(), sm_ann.gs(), sa_ann.gs()));
             // --- O-C18 in process: repeated renders and permuted slices
             let mut c18 = serde_json::Map::new();
             for (orm, oname) in ORMS {
